@@ -14,6 +14,9 @@
 //              every wake-up requested by the internal timer inside the window was honoured at exactly that time
 //              in every mode; no nested graph evaluation carries a time earlier than the enclosing root cycle's time
 #include "hk.h"
+#ifdef C09_DEBUG
+#include <cstdio>
+#endif
 #include "hk_c09.h"
 
 #ifndef NX
@@ -200,6 +203,14 @@ extern "C" int harness_main() {
         run_sim(Builders<DEPTH>::build(def, g_mode), g_start, g_end, &obs);
     }
 
+#ifdef C09_DEBUG
+    for (int m = 0; m < NMODE; m++) {
+        for (int i = 0; i < g_m[m].nout; i++) std::fprintf(stderr, "mode %d out t=%ld v=%ld\n", m, (long)us(g_m[m].out[i].t), (long)g_m[m].out[i].v);
+        for (int i = 0; i < g_m[m].ntrun; i++) std::fprintf(stderr, "mode %d timer run t=%ld\n", m, (long)us(g_m[m].trun[i]));
+        for (int i = 0; i < g_log[m].n; i++)
+            if (g_log[m].ev[i].kind == EV_GRAPH_BEGIN) std::fprintf(stderr, "mode %d cycle depth=%d t=%ld\n", m, g_log[m].ev[i].depth, (long)us(g_log[m].ev[i].t));
+    }
+#endif
     // ---- oracle (branch-free over symbolic times / values; counts are concrete per path)
     bool ok_same[NMODE], ok_count[NMODE];
     bool ok_wake = true, ok_clock = true, ok_log = true;
